@@ -106,13 +106,13 @@ def parse_coverage(out):
     return cov
 
 
-def run_mc(module, cfg, workers=4, timeout=600, coverage=True, name=None, env_extra=None, expect_ok=True):
+def run_mc(module, cfg, workers=4, timeout=600, coverage=True, name=None, env_extra=None, expect_ok=True, simulate=None, depth=None):
     """Exhaustive TLC run of a bounded instance.  Returns dict(ok, states, transitions, coverage, out)."""
     name = name or module
     md = os.path.join(WORK, "tlc_" + name)
     shutil.rmtree(md, ignore_errors=True)
-    cmd = _tlc_cmd(workers, md, cfg, module)
-    if coverage:
+    cmd = _tlc_cmd(workers, md, cfg, module, simulate=simulate, depth=depth)
+    if coverage and not simulate:
         cmd.insert(cmd.index("-config"), "-coverage")
         cmd.insert(cmd.index("-config"), "1")
     env = dict(os.environ)
@@ -131,6 +131,10 @@ def run_mc(module, cfg, workers=4, timeout=600, coverage=True, name=None, env_ex
     res["out"] = out
     res["wall_s"] = time.time() - t0
     res["ok"] = "Model checking completed. No error has been found." in out
+    if simulate:
+        res["ok"] = ("Error:" not in out) and ("is violated" not in out)
+        res.setdefault("states", 0)
+        res.setdefault("transitions", 0)
     res["coverage"] = parse_coverage(out)
     res["violated"] = re.findall(r"Invariant (\w+) is violated|Temporal properties were violated", out)
     if expect_ok and not res["ok"]:
